@@ -22,7 +22,7 @@ from vlib import InfraError
 LEVEL = "model_checking"
 
 CLAUSES = {1: "window-empty", 2: "sched-start-not-at-previous-end", 4: "row-label-not-window-start",
-           8: "row-count-not-window-content"}
+           8: "row-count-not-window-content", 16: "window-advanced-by-initial-failure"}
 
 
 def _build(ctx):
